@@ -309,6 +309,13 @@ func (e *Engine) solveOne(o *Oblig, dir string, t1, t2 int) {
 	if o.NoReach && t1 > 2 {
 		t1 = 2
 	}
+	if e.knownNames[o.Name] {
+		// a recorded finding is expected not to be provable: one short attempt (it is reported as
+		// KNOWN-FINDING unless it has become provable)
+		r := runSolver(solvers[0], file, t1)
+		o.Secs, o.Status, o.Solver, o.Model = r.secs, r.status, r.solver, r.out
+		return
+	}
 	// weaker variant: explicitly instantiated quantified hypotheses replaced by their instances
 	var gfile string
 	if o.RawQuery == "" && !o.NoReach && o.fc != nil && o.fc.hasInstTerms(o) {
@@ -441,7 +448,7 @@ func (e *Engine) solveAll(obs []*Oblig, dir string, t1, t2 int, workers int) {
 	// a provable obligation into an alarm.
 	var retry []*Oblig
 	for _, o := range obs {
-		if !o.preSolved && !o.NoReach && o.Status != "proved" && o.Status != "refuted" && o.File != "" {
+		if !o.preSolved && !o.NoReach && o.Status != "proved" && o.Status != "refuted" && o.File != "" && !e.knownNames[o.Name] {
 			retry = append(retry, o)
 		}
 	}
